@@ -2,16 +2,17 @@
    Model: Model/ChanWake.v (the poll timeout does not exist).  For ALL schedules (all
    interleavings of the I/O thread, n workers, the client, the kernel's answers to every
    send/recv and the application's write pattern), all lookaheads, send_bytes and
-   high watermarks >= 1, both poll orders: in a quiescent state (I/O thread asleep in
+   high watermarks >= 0, both poll orders: in a quiescent state (I/O thread asleep in
    select, every worker parked on queue_cv or on outbuf_lock's condition) there is no
    undelivered output, no unserviced request or unread client data, no parked producer,
-   and a pending close has been carried out -- outside the classes of the three findings
-   (outbuf_high_watermark = 0; a producer that starts waiting after handle_close; the flush of
-   a worker-side send_continue raising), each of which is refuted by a concrete schedule.
+   and a pending close has been carried out -- outside the class of the one open finding
+   (the flush of a worker-side send_continue raises), which is refuted by a concrete schedule.
    C05_partial_stuck: the same for "no thread can move at all" (no deadlock on the two
    locks).  C05_app_partial: the same when workers may also sit inside the application, with
-   "fewer than send_bytes bytes pending" in place of "no pending output" (send_bytes <=
-   high watermark). *)
+   "fewer than send_bytes bytes pending" in place of "no pending output".
+   (Earlier exclusions -- outbuf_high_watermark = 0, a producer starting to wait after
+   handle_close, send_bytes above the watermark, the unlocked flush of the I/O thread -- were
+   findings of this check that have been repaired in /repo; the theorems now cover them.) *)
 From Coq Require Import List ZArith Bool.
 From WV Require Import Lib.Conc Model.ChanWake Proof.ChanWakeInv Proof.ChanWake Proof.ChanWakeWitness.
 Import ListNotations.
@@ -23,7 +24,7 @@ Proof. exact inv_reachable. Qed.
 Print Assumptions C05_invariant.
 
 Theorem C05_partial : forall c nw sched,
-  1 <= hw c -> (0 < nw)%nat ->
+  0 <= hw c -> (0 < nw)%nat ->
   quiescent_parked (runc c nw sched) = true ->
   in_kf_class (runc c nw sched) = false ->
   c05_ok (runc c nw sched) = true.
@@ -33,7 +34,7 @@ Print Assumptions C05_partial.
 (* for the widest notion of quiescence -- no thread of the server can move at all: then nobody
    is stuck on a lock (no deadlock), every worker is parked, and the predicate holds *)
 Theorem C05_partial_stuck : forall c nw sched,
-  1 <= hw c -> (0 < nw)%nat ->
+  0 <= hw c -> (0 < nw)%nat ->
   quiescent (runc c nw sched) = true ->
   in_kf_class (runc c nw sched) = false ->
   quiescent_parked (runc c nw sched) = true /\ c05_ok (runc c nw sched) = true.
@@ -43,7 +44,7 @@ Print Assumptions C05_partial_stuck.
 (* workers may also sit inside the application (a streaming application that waits for its
    consumer): then at most send_bytes - 1 bytes are left unsent (0 for the default send_bytes = 1) *)
 Theorem C05_app_partial : forall c nw sched,
-  1 <= hw c -> sb c <= hw c -> (0 < nw)%nat ->
+  0 <= hw c -> (0 < nw)%nat ->
   quiescent_app (runc c nw sched) = true ->
   in_kf_class (runc c nw sched) = false ->
   app_ok c (runc c nw sched) = true.
@@ -51,8 +52,8 @@ Proof. exact c05_app_partial. Qed.
 Print Assumptions C05_app_partial.
 
 Theorem C05_partial_unfolded : forall c nw sched s,
-  1 <= hw c -> (0 < nw)%nat -> s = runc c nw sched ->
-  quiescent_parked s = true -> taint s = false -> existsb parked_after_close (ws s) = false ->
+  0 <= hw c -> (0 < nw)%nat -> s = runc c nw sched ->
+  quiescent_parked s = true -> taint s = false ->
   (closed s = false -> total s = 0 /\ pend s = 0) /\
   (closed s = false -> nreq s = 0%nat /\ queue s = 0%nat /\ rx s = []) /\
   (forall j p, nth_error (ws s) j = Some p -> parked_o p = false) /\
@@ -60,23 +61,9 @@ Theorem C05_partial_unfolded : forall c nw sched s,
 Proof. exact c05_partial_unfolded. Qed.
 Print Assumptions C05_partial_unfolded.
 
-Theorem C05_refuted_watermark0 :
-  exists c nw sched, hw c = 0 /\
-    let s := run (step c) (init nw) sched in
-    quiescent_parked s = true /\ in_kf_class s = false /\ no_producer_parked s = false.
-Proof. exact refuted_watermark0. Qed.
-Print Assumptions C05_refuted_watermark0.
-
-Theorem C05_refuted_park_after_close :
-  exists c nw sched, 1 <= hw c /\
-    let s := run (step c) (init nw) sched in
-    quiescent_parked s = true /\ taint s = false /\ no_producer_parked s = false.
-Proof. exact refuted_park_after_close. Qed.
-Print Assumptions C05_refuted_park_after_close.
-
-Theorem C05_refuted_worker_continue :
-  exists c nw sched, 1 <= hw c /\
+Theorem C05_refuted_continue_raises :
+  exists c nw sched, 0 <= hw c /\
     let s := run (step c) (init nw) sched in
     quiescent_parked s = true /\ taint s = true /\ no_pending_output s = false.
-Proof. exact refuted_worker_continue. Qed.
-Print Assumptions C05_refuted_worker_continue.
+Proof. exact refuted_continue_raises. Qed.
+Print Assumptions C05_refuted_continue_raises.
